@@ -191,10 +191,19 @@ def refusals(ctx, ss):
     st = d.state_int
     expect('backward jump_dt', lambda: d.jump_dt(ti=3), 'DistSeedRepeatError')
     expect('jump to same index', lambda: d.jump(to=d.ind), 'DistSeedRepeatError')
+    expect('relative jump by 0', lambda: d.jump(delta=0), 'DistSeedRepeatError')
+    expect('relative jump backwards', lambda: d.jump(delta=-2), 'DistSeedRepeatError')
     if d.state_int != st or d.ind != 5000:
         ctx.violation('a refused jump changed the distribution state', dict(case='refused jump mutates'))
     d.jump_dt(ti=3, force=True)
     if d.ind != 3000: ctx.violation('forced backward jump not honoured', dict(case='forced jump'))
+    d2 = ss.random(name='r').init(trace='r', seed=3, sim=sim, module=do.MockModule())
+    d2.jump_dt(ti=2); a = np.asarray(d2.rvs(ss.uids([1, 2, 3]))).tolist()
+    try:
+        d2.jump(delta=0); b = np.asarray(d2.rvs(ss.uids([1, 2, 3]))).tolist()
+        if a == b: ctx.violation(f'after jump(delta=0) the next call starts from the generator state already used: both calls return {a}', dict(case='relative jump by 0 repeats the draw', values=a))
+    except Exception:
+        pass
     # stride overrun: >= dt_jump_size draws in one step -> next step's jump is refused, not silently overlapped
     d = ss.random(name='o').init(trace='o', seed=1, sim=sim, module=do.MockModule())
     d.jump_dt(ti=1)
